@@ -311,7 +311,8 @@ fn run_cli(root: &Path, r: &Value, cli: &str) -> Value {
                 None => "panic", // killed by a signal (abort)
             };
             let verdict = if err_s.contains("panicked at") { "panic" } else { verdict };
-            json!({"verdict": verdict, "exit": code, "signal": s.signal(), "stderr": tail})
+            json!({"verdict": verdict, "exit": code, "signal": s.signal(), "stderr": tail,
+                   "stdout_len": _out.len(), "stderr_len": err.len(), "verbose_marker": err_s.contains("Using")})
         }
     }
 }
